@@ -73,6 +73,11 @@ def stepDary (s : St) (d : Nat) (hd : 0 < d) (h : Array Nat) (ts : List String) 
     match k.toNat? with
     | some k => if k < U then fin s (push lt d h k) "ok" else (s, "bad-op")
     | none => (s, "bad-op")
+  | ["pushat", i] =>
+    -- push(heap_[i]): the pushed key is the one stored in slot i
+    match i.toNat? with
+    | some i => match h[i]? with | some k => fin s (push lt d h k) "ok" | none => (s, "bad-op")
+    | none => (s, "bad-op")
   | ["top"] => match top? h with | some t => fin s h (toString t) | none => (s, "bad-op")
   | ["pop"] | ["xtop"] =>
     match top? h with
@@ -138,6 +143,17 @@ def stepAddr (s : St) (d : Nat) (hd : 0 < d) (a : AH) (ref : List Nat) (ts : Lis
     match k.toNat? with
     | some k => if k ≤ 200 then fin s a ref (if a.contains k then "1" else "0") else (s, "bad-op")
     | none => (s, "bad-op")
+  | ["updat", i, p] =>
+    match i.toNat?, p.toInt? with
+    | some i, some p =>
+      match a.heap[i]? with
+      | some k =>
+        if k < U ∧ ref.contains k ∧ a.contains k then
+          let s' := setPrios s [(k, p)]
+          opt s' (a.update s'.lt d hd k) ref "ok"
+        else (s, "bad-op")
+      | none => (s, "bad-op")
+    | _, _ => (s, "bad-op")
   | ["upd", k, p] =>
     match k.toNat?, p.toInt? with
     | some k, some p =>
@@ -239,6 +255,16 @@ def stepRadix (s : St) (c : RCfg) (h : RH c) (fr : Option Int) (np : Nat) (ts : 
           | none => (s, ub)
       | none => (s, "bad-op")
     else (s, "bad-op")
+  | ["pushtop"] | ["pushbtop"] | ["emplacetop"] =>
+    -- top(), then push / push_to_bucket / emplace of the reported (stored) element itself, same payload
+    if h.size = 0 then (s, "bad-op") else
+    match h.top with
+    | some (h1, v) =>
+      let idx := h1.getBucketKey v.1
+      match h1.pushToBucket idx v with
+      | some h2 => fin h2 (some (keyVal c v.1)) np (toString idx)
+      | none => (s, ub)
+    | none => (s, ub)
   | ["top"] =>
     if h.size = 0 then (s, "bad-op") else
     match h.top with
